@@ -150,7 +150,7 @@ PROPERTIES = {
     "C11": {
         "level": "proof",
         "must_fail_quick": False,     # the vacuity twins of these units run under the property that owns each unit (and in C11 thorough)
-        "verus_units": ["arith_widen", "arith128", "widediv", "nofrac", "fracops", "round@*", "transc", "log2inner", "sqrtacc", "powiacc", "leaves", "decbin", "decbin128", "parsetop", "digitsint", "tokeniser", "decfrac", "powfrac", "fmttop", "fmtdigits", "cmp@*", "fromfixed@*", "fromfloat@*", "wrapping", "traitfwd@*", "intconv", "floatglue", "trig", "cmpfloat@*", "cmpfloatrev@*", "cmpint@*", "cmpintrev@*", "bitops@*", "remint@*", "diveuclid@*"],
+        "verus_units": ["arith_widen", "arith128", "widediv", "nofrac", "fracops", "round@*", "transc", "log2inner", "sqrtacc", "powiacc", "leaves", "decbin", "decbin128", "parsetop", "digitsint", "tokeniser", "decfrac", "powfrac", "fmttop", "fmtdigits", "fmtround", "cmp@*", "fromfixed@*", "fromfloat@*", "wrapping", "traitfwd@*", "intconv", "floatglue", "trig", "cmpfloat@*", "cmpfloatrev@*", "cmpint@*", "cmpintrev@*", "bitops@*", "remint@*", "diveuclid@*"],
         "kani": [{"harness": h, "classes": ["panic"]} for h in
                  _mods("arith8", ["i4f4", "i0f8", "u4f4", "u0f8"], FORMS) + ["arith8::abs_forms_i8"] + TFH
                  + ["float::check_to_f32", "float::check_to_f64", "float::check_kind_f32", "float::check_kind_f64"]
@@ -204,7 +204,7 @@ PROPERTIES = {
     },
     "C09": {
         "level": "other",
-        "verus_units": ["leaves", "fmttop", "fmtdigits"],
+        "verus_units": ["leaves", "fmttop", "fmtdigits", "fmtround"],
         "kani": ["display::display_default", "display::display_precision", "display::display_plus", "display::display_lower_hex", "display::display_binary", "display::display_width_precision", "display::display_lower_hex_u16"],
         "kani_thorough": ["display::display_sign", "display::display_zero_pad", "display::display_width", "display::display_width_precision_left", "display::display_width_precision_zero", "display::display_upper_hex",
                           "display::display_octal", "display::display_alt_hex", "display::display_octal_u16", {"harness": "display::display_default_u16", "timeout": 3000}, "display::display_lower_hex_u32"],
@@ -223,14 +223,22 @@ PROPERTIES = {
                        "Unit fmttop: fmt_dec<U> / fmt_radix2<U> establish the writers' preconditions from the split of the bit pattern (leading_zeros / trailing_zeros, 10^(clog(i)-1) < 2^i <= 10^clog(i) "
                        "checked by computation for i <= 128) and assert END TO END, in front of Buffer::finish: integer digits == abs >> f, fraction digits == floor(frac * r^m / 2^W), order flag == "
                        "cmp(exact remainder, 1/2), and for the default format |shown - value| < half a unit of the last fractional bit (what makes the output parse back, given C08); "
-                       "plus Buffer::new, Buffer::set_len: every shift amount in range, no digit count overflows, int_digits + frac_digits <= W <= 128, the buffer-length assertion cannot fire",
+                       "plus Buffer::new, Buffer::set_len: every shift amount in range, no digit count overflows, int_digits + frac_digits <= W <= 128, the buffer-length assertion cannot fire.  "
+                       "Unit fmtround (width-independent code, one proof for every type, radix and digit count): Buffer::round_and_trim under its VALUE contract - with r = max + 1 and the digit string read as one number, "
+                       "new * r^(dropped fraction digits) == old + 1 exactly when the exact remainder is above one half, or equal to one half with an odd last digit (ties to even), else == old; structurally: the carry stops at the "
+                       "last digit below max, everything after it was max and is zero, it passes the radix point and can reach the spare leading slot (which finish_req keeps zero, so the loop always ends by `break`), the zeroed "
+                       "fraction digits are dropped, otherwise only zero digits are trimmed; nothing else in the 130-byte buffer changes and the debug assertion at the radix point cannot fire; Buffer::encode_digits (every digit "
+                       "becomes its ASCII character, the radix point stays); Buffer::finish (the three calls: round_and_trim's precondition is finish_req, which fmt_dec / fmt_radix2 are verified to establish in unit fmttop, and the "
+                       "buffer handed to pad_and_print holds ASCII digits only); Radix::max, Radix::prefix",
         "bounded_parts": ["BOUNDED (Kani, 8-bit layouts: all formats and flags; 16-bit layouts: `{:x}`, `{:o}`, `{}`; precision <= 9; width <= 12; one flag at a time; core::str::from_utf8 stubbed by its unchecked variant): "
-                          "Buffer::finish = round_and_trim (carry / ties-to-even on the digit buffer from the order flag), encode_digits, pad_and_print (core::fmt: sign, prefix, padding) - declared external in unit fmttop, "
-                          "i.e. the step from (exact digits, exact order flag) to the printed string is decided by the bounded harnesses only"],
+                          "Buffer::pad_and_print (core::fmt: sign, prefix, width / fill / alignment, zero padding up to a requested precision) - declared external in unit fmtround with the precondition that finish establishes "
+                          "(a well-formed buffer of ASCII digits with the radix point in place), i.e. the step from the rounded, encoded digit buffer to the printed string is decided by the bounded harnesses only; "
+                          "they also re-check the whole chain (digits, rounding, encoding) independently on those layouts"],
         "assumptions": ["unit fmttop: trait-level contracts of the generic unsigned FmtHelper - `<<` / `>>` of the primitive types, leading_zeros (W - lz = number of significant bits), "
                         "trailing_zeros (zero has W; otherwise the index of the lowest set bit) - are statements about core's primitive integer methods, assumed; core::cmp::min and "
                         "Formatter::precision (any Option<usize>) are assume_specification; ceil_log10_2_times is declared with the contract proved in unit leaves; the four digit-writer contracts "
                         "(contracts/fmthelper.inc) are assumed in unit fmttop for the generic U and proved in unit fmtdigits for u8 .. u128 (one text)",
+                        "unit fmtround: pad_and_print (core::fmt) is external; the derived PartialEq of the fieldless enum Radix is declared as equality of the variants; <Ordering as PartialEq>::eq is assume_specification",
                         "unit fmtdigits: Mul10::mul10_assign is declared with the contract proved in unit leaves; IntHelper::MSB is a literal tied to the source text by //@require_source; wrapping_neg is assume_specification"],
     },
     "C12": {
